@@ -140,6 +140,11 @@ namespace sim
                s.left = bit( a ) | bit( c ) | ( na ? bit( b ) : 0 );
                break;
             case OP_IF_MUST:
+            case OP_TC_RF2:
+            case OP_TC_STD_RF2:
+            case OP_TC_TYPE_RF2:
+            case OP_TC_RN2:
+            case OP_TC_TYPE_RN2:
                return seq_sem( an, { a, b } );
             case OP_T_SOR_BT:
             case OP_T_SOR_TC:
@@ -364,7 +369,7 @@ namespace sim
    namespace
    {
       const std::uint8_t grp_consume[] = { OP_SEQ2, OP_SEQ3, OP_SOR2, OP_SOR3, OP_UNTIL1, OP_UNTIL2, OP_REP2, OP_REP_MIN_MAX, OP_REP_MIN, OP_IF_THEN_ELSE, OP_STRICT, OP_STAR_STRICT, OP_REMATCH, OP_REMATCH2, OP_MINUS, OP_IF_APPLY, OP_RAW, OP_TC_RF, OP_TC_ANY_RF, OP_LIST, OP_PAD, OP_AT, OP_NOT_AT };
-      const std::uint8_t grp_exc[] = { OP_MUST, OP_IF_MUST, OP_IF_MUST_ELSE, OP_OPT_MUST, OP_STAR_MUST, OP_LIST_MUST, OP_TC_RF, OP_TC_ANY_RF, OP_TC_STD_RF, OP_TC_TYPE_RF, OP_TC_RN, OP_TC_ANY_RN, OP_TC_STD_RN, OP_TC_TYPE_RN, OP_SEQ2, OP_SOR2, OP_STAR, OP_OPT, OP_AT, OP_W_CB2, OP_IF_APPLY };
+      const std::uint8_t grp_exc[] = { OP_TC_RF2, OP_TC_STD_RF2, OP_TC_TYPE_RF2, OP_TC_RN2, OP_TC_TYPE_RN2, OP_MUST, OP_IF_MUST, OP_IF_MUST_ELSE, OP_OPT_MUST, OP_STAR_MUST, OP_LIST_MUST, OP_TC_RF, OP_TC_ANY_RF, OP_TC_STD_RF, OP_TC_TYPE_RF, OP_TC_RN, OP_TC_ANY_RN, OP_TC_STD_RN, OP_TC_TYPE_RN, OP_SEQ2, OP_SOR2, OP_STAR, OP_OPT, OP_AT, OP_W_CB2, OP_IF_APPLY };
       const std::uint8_t grp_state[] = { OP_STATE, OP_W_CS, OP_W_CSS, OP_W_EA, OP_W_DA, OP_ENABLE, OP_DISABLE, OP_AT, OP_NOT_AT, OP_MINI, OP_SEQ2, OP_SOR2, OP_STAR, OP_OPT, OP_TC_ANY_RF, OP_MUST };
       const std::uint8_t grp_limits[] = { OP_W_LB1, OP_W_LB3, OP_W_LD1, OP_W_LD2, OP_W_CB2, OP_SEQ2, OP_SEQ3, OP_SOR2, OP_STAR, OP_OPT, OP_AT, OP_NOT_AT, OP_TC_RF, OP_TC_ANY_RF, OP_PLUS, OP_UNTIL1 };
       const std::uint8_t grp_stream[] = { OP_SEQ2, OP_SEQ3, OP_SOR2, OP_STAR, OP_PLUS, OP_UNTIL1, OP_UNTIL2, OP_LIST, OP_PAD, OP_RAW, OP_REMATCH, OP_MINUS, OP_AT, OP_NOT_AT, OP_REP_MIN_MAX, OP_IF_THEN_ELSE };
@@ -482,7 +487,7 @@ namespace sim
             case ATOM_UNSIGNED: return r.chance( 1, 3 ) ? "0" : ( r.chance( 1, 2 ) ? "42" : "01" );
             case ATOM_SIGNED: return r.chance( 1, 3 ) ? "-7" : ( r.chance( 1, 2 ) ? "+12" : "-01" );
             case ATOM_MAXIMUM: return r.chance( 1, 3 ) ? "12" : ( r.chance( 1, 2 ) ? "99" : "100" );
-            case ATOM_RAW0: return r.chance( 1, 2 ) ? "[=[x]]y]=]" : "[[\nab]]";
+            case ATOM_RAW0: return r.chance( 1, 2 ) ? "[=[x]]y]=]" : ( r.chance( 1, 2 ) ? "[[\nab]]" : ( r.chance( 1, 2 ) ? "[==[x]=" : "[===[]" ) );
             case ATOM_DIGIT: return "7";
             case ATOM_ALPHA: return "q";
             case ATOM_SPACE: return r.chance( 1, 2 ) ? " " : "\n";
@@ -589,6 +594,11 @@ namespace sim
                   break;
                case OP_SEQ2:
                case OP_IF_MUST:
+               case OP_TC_RF2:
+               case OP_TC_STD_RF2:
+               case OP_TC_TYPE_RF2:
+               case OP_TC_RN2:
+               case OP_TC_TYPE_RN2:
                   node( a, d );
                   node( b, d );
                   break;
@@ -754,10 +764,14 @@ namespace sim
                   for( unsigned i = reps( 0, 3 ); i > 0; --i ) {
                      node( a, d );
                   }
-                  if( r.chance( 5, 6 ) ) {
+                  if( r.chance( 3, 4 ) ) {
                      out += "]";
                      out.append( r.chance( 5, 6 ) ? k : k + 1, '=' );
                      out += "]";
+                  }
+                  else if( r.chance( 2, 3 ) ) {
+                     out += "]";  // input may end inside the closing bracket
+                     out.append( r.below( k + 1 ), '=' );
                   }
                   break;
                }
